@@ -28,12 +28,12 @@ CONFIGS = {
     "inf": dict(ttl=TTL_FOREVER, cyclic=1, refresh=None, rep=1, collect=0.005, jitter="lo"),
 }
 DURS_Q = [1, 50, 700, 1500]
-DURS_T = [1, 5, 50, 300, 700, 1000, 1500, 2500, 4000]
+DURS_T = [1, 5, 50, 700, 1500, 4000]
 KINDS = ["A-stopstart", "B-stopstart", "A-stop", "B-stop", "A-crash", "B-crash", "A-crashstop", "B-crashstop", "loss", "dup", "reorder"]
 
 
 def bounds(tier):
-    return {"H04": "offerer A and watcher B (auto-subscribing to one eventgroup); disturbance kinds %s; start symbolic in 0..%d ms, duration from %s ms; timing configurations %s" % (KINDS, 2500 if tier == "quick" else 6000, DURS_Q if tier == "quick" else DURS_T, ["t1", "inf"] if tier == "quick" else sorted(CONFIGS))}
+    return {"H04": "offerer A and watcher B (auto-subscribing to one eventgroup); disturbance kinds %s; start symbolic in 0..%d ms, duration from %s ms; timing configurations %s" % (KINDS, 2500 if tier == "quick" else 4000, DURS_Q if tier == "quick" else DURS_T, ["t1", "inf"] if tier == "quick" else sorted(CONFIGS))}
 
 
 def cases(tier, seed):
@@ -45,11 +45,10 @@ def cases(tier, seed):
                 continue  # with infinite TTLs a silent death is, by design, never noticed
             if tier == "quick" and c == "inf" and k in ("A-stop", "B-stop"):
                 continue
-            out.append({"h": "H04", "cfg": c, "kinds": [k], "tmax": 2500 if tier == "quick" else 6000, "durs": DURS_Q if tier == "quick" else DURS_T, "_w": 10})
+            out.append({"h": "H04", "cfg": c, "kinds": [k], "tmax": 2500 if tier == "quick" else 4000, "durs": DURS_Q if tier == "quick" else DURS_T, "_w": 10})
     if tier == "thorough":
-        for k1 in ("A-crash", "B-crash", "loss"):
-            for k2 in ("A-stopstart", "B-crash", "loss"):
-                out.append({"h": "H04", "cfg": "t2", "kinds": [k1, k2], "tmax": 2500, "durs": [1, 700], "_w": 30})
+        for k1, k2 in (("A-crash", "B-crash"), ("loss", "A-stopstart"), ("B-crash", "loss"), ("A-crash", "A-stopstart")):
+            out.append({"h": "H04", "cfg": "t2", "kinds": [k1, k2], "tmax": 1500, "durs": [1, 700], "_w": 30})
     return out
 
 
